@@ -457,6 +457,32 @@ def main():
         v.append("(* libmcount/wrap.c:dlopen - is the clock (mcount_gettime) read before real_dlopen() is called? *)")
         v.append("Definition wrap_dlopen_clock_first : bool := %s.\n"
                  % ("true" if call_order(fn, "mcount_gettime", "real_dlopen") else "false"))
+        # load_symtab: is prev_sym_value only updated when load_symbol() accepted the entry?
+        fn = ast_of("utils/symbol.c", "load_symtab")
+        found = {"guarded": 0, "unguarded": 0}
+
+        def walk_prev(n, guarded):
+            k = n.get("kind")
+            if k == "BinaryOperator" and n.get("opcode") == "=" and n.get("inner"):
+                lhs = n["inner"][0]
+                if lhs.get("kind") == "DeclRefExpr" and lhs.get("referencedDecl", {}).get("name") == "prev_sym_value":
+                    found["guarded" if guarded else "unguarded"] += 1
+            if k == "IfStmt" and n.get("inner"):
+                cond = n["inner"][0]
+                g = '"name": "load_symbol"' in json.dumps(cond)
+                walk_prev(cond, guarded)
+                for idx, c in enumerate(n["inner"][1:]):
+                    walk_prev(c, guarded or (g and idx == 0))
+                return
+            for c in n.get("inner", []) or []:
+                if isinstance(c, dict):
+                    walk_prev(c, guarded)
+        walk_prev(fn, False)
+        if found["guarded"] + found["unguarded"] == 0:
+            raise Unsupported("load_symtab: no assignment to prev_sym_value found")
+        v.append("(* utils/symbol.c:load_symtab - prev_sym_value is assigned only under `if (load_symbol(...))`? *)")
+        v.append("Definition symtab_prev_only_accepted : bool := %s.\n" % ("true" if found["unguarded"] == 0 else "false"))
+        fn = ast_of("libmcount/wrap.c", "dlopen")
         # is dlopen_depth decremented after real_dlopen() and before the first return that follows it?
         order, pos = [0], {"call": None, "dec": [], "ret": []}
 
